@@ -242,6 +242,12 @@ SPECIALS = [
     (2, ['map', ['frozen', ['list', ['s', 'int']]], ['s', 'int']], ['map', [[['seq', [['int', 1], ['int', 2]]], ['int', 7]]]]),
     (1, ['map', ['set', ['s', 'text']], ['s', 'text']], ['map', [[['seq', [['text', [97]]]], ['text', [98]]], [['seq', []], ['null']]]]),
     (2, ['map', ['map', ['s', 'int'], ['s', 'int']], ['list', ['s', 'int']]], ['map', [[['map', [[['int', 1], ['int', 2]]]], ['seq', [['int', 3]]]]]]),
+    # wrappers are transparent for the fixed serialized size: no per-element length prefix (repo fix for C28-4)
+    (1, ['vector', ['reversed', ['s', 'bigint']], 2], ['seq', [['int', 1], ['int', -2]]]),
+    (65, ['vector', ['frozen', ['s', 'double']], 2], ['seq', [['int', 0x3ff0000000000000], ['int', 0]]]),
+    (4, ['reversed', ['list', ['vector', ['reversed', ['s', 'float']], 2]]], ['seq', [['seq', [['int', 0x3f800000], ['int', 0]]], ['null']]]),
+    (5, ['vector', ['frozen', ['vector', ['reversed', ['s', 'int']], 2]], 2], ['seq', [['seq', [['int', 1], ['int', 2]]], ['seq', [['int', 3], ['int', 4]]]]]),
+    (5, ['vector', ['reversed', ['s', 'text']], 2], ['seq', [['text', [97]], ['text', [98, 99]]]]),
     (3, ['s', 'date'], ['int', -1]),
     (3, ['s', 'date'], ['int', -365]),
     (4, ['list', ['s', 'date']], ['seq', [['int', -1], ['int', 0], ['int', -20000]]]),
